@@ -48,7 +48,9 @@ var injectKinds = []string{"goto", "labelled-break", "labelled-continue", "selec
 	"defer-after-yield-in-loop", "defer-after-yield-in-if", "defer-in-bare-block-after-yield",
 	// a labelled loop left by 'break L' from inside a TYPE switch; index-only range over a NIL
 	// pointer to an array with a yield in its body
-	"labelled-break-in-type-switch", "range-nil-ptr-array-index-only-yielding"}
+	"labelled-break-in-type-switch", "range-nil-ptr-array-index-only-yielding",
+	// defer / select in a clause of a switch in which NOTHING yields (the switch stays native)
+	"defer-in-nonyielding-switch-clause", "select-in-nonyielding-type-switch-clause"}
 
 // rawInject returns the source text of the construct (placeholders as in templates).
 func rawInject(kind string, tag func() int, control bool) string {
@@ -91,6 +93,10 @@ func rawInject(kind string, tag func() int, control bool) string {
 		return fmt.Sprintf("L9:\n\tfor i9 := 0; i9 < 6; i9++ {\n\t\tswitch x9 := any(i9).(type) {\n\t\tcase int:\n\t\t\tif x9 == 3 {\n\t\t\t\tbreak L9\n\t\t\t}\n\t\t\t%s\n\t\tcase string:\n\t\t\tvrt.E(%d)\n\t\t}\n\t}\n%s", y("x9"), tag(), y("-4"))
 	case "range-nil-ptr-array-index-only-yielding":
 		return fmt.Sprintf("var np9 *[3]int\nfor i9 := range np9 {\n\t%s\n}\nvrt.E(%d)", y("i9+40"), tag())
+	case "defer-in-nonyielding-switch-clause":
+		return fmt.Sprintf("switch {\ncase vrt.B(%d, true):\n\tvrt.E(%d)\n\tdefer vrt.E(%d)\ndefault:\n\tvrt.E(%d)\n}\nfor d9 := 0; d9 < 2; d9++ {\n\t%s\n}\nvrt.E(%d)", tag(), tag(), tag(), tag(), y("d9+60"), tag())
+	case "select-in-nonyielding-type-switch-clause":
+		return fmt.Sprintf("ch9 := make(chan int, 1)\nch9 <- 3\nswitch x9 := any(1).(type) {\ncase int:\n\tselect {\n\tcase v9 := <-ch9:\n\t\tvrt.E(%d, v9+x9)\n\tdefault:\n\t\tvrt.E(%d)\n\t}\n}\n%s", tag(), tag(), y("61"))
 	case "range-func":
 		return fmt.Sprintf("for v9 := range func(yield func(int) bool) {\n\t_ = yield(1) && yield(2)\n} {\n\t%s\n}", y("v9"))
 	case "range-ptr-array":
